@@ -204,6 +204,8 @@ def run(ctx):
                             prob = path_problem(path, MPl, consumed)
                             if prob is None and len(path) < minlen:
                                 prob = "path shorter than minlen"
+                            if prob is None and k is not None and len(got) >= k:
+                                prob = "more than k=%d matches yielded by one call" % k
                             if prob is None and not silent_discards and path:
                                 # traced from a maximum: with minlen=1 no candidate is discarded silently, so the
                                 # end cell must hold the largest value among the cells not yet used
